@@ -213,6 +213,44 @@ pub fn check_storage(ctx: &Ctx, case: &Case, obs: &mut Obs, replaying: bool) -> 
     Ok(())
 }
 
+/// Binary recursion shapes around the transitive-closure pattern: `p` has one base clause over `e`
+/// (columns possibly swapped / repeated) and one recursive clause with exactly the two atoms e(..),
+/// p(..) in either order, head and body variables drawn freely from three variables. The exact TC
+/// rule is one point of this space; its neighbours (p(Z, X), reversed base, left-linear, ...) must
+/// be answered by their own least model, not by the closure of `e`.
+fn tc_shape_case(tape: &[u16]) -> Option<Case> {
+    use crate::common::gen::Tape;
+    use crate::common::prog::{Atom, Clause, Lit, Program, HT, T};
+    let mut t = Tape::new(tape);
+    let v = |t: &mut Tape| t.below(3) as u8;
+    let e = |a: u8, b: u8| Lit::Pos(Atom { rel: "e".into(), args: vec![T::V(a), T::V(b)] });
+    let pa = |a: u8, b: u8| Lit::Pos(Atom { rel: "p".into(), args: vec![T::V(a), T::V(b)] });
+    // base clause: p(h0, h1) <- e(b0, b1), head variables among the body's
+    let (b0, b1) = if t.chance(1, 6) { (0u8, 0u8) } else { (0u8, 1u8) };
+    let pick = |t: &mut Tape, from: &[u8]| from[t.below(from.len())];
+    let base = Clause { head: "p".into(), hargs: vec![HT::V(pick(&mut t, &[b0, b1])), HT::V(pick(&mut t, &[b1, b0]))], body: vec![e(b0, b1)] };
+    // recursive clause
+    let (e0, e1, p0, p1) = (v(&mut t), v(&mut t), v(&mut t), v(&mut t));
+    let body_vars: Vec<u8> = vec![e0, e1, p0, p1];
+    let (h0, h1) = (pick(&mut t, &body_vars), pick(&mut t, &body_vars));
+    let body = if t.chance(1, 2) { vec![e(e0, e1), pa(p0, p1)] } else { vec![pa(p0, p1), e(e0, e1)] };
+    let rec = Clause { head: "p".into(), hargs: vec![HT::V(h0), HT::V(h1)], body };
+    let q = Clause { head: "q".into(), hargs: vec![HT::V(0), HT::V(1)], body: vec![pa(0, 1)] };
+    let clauses = if t.chance(1, 4) { vec![rec, base, q] } else { vec![base, rec, q] };
+    let n = 2 + t.below(5);
+    let mut rows: Vec<Vec<i64>> = Vec::new();
+    for _ in 0..n {
+        let r = vec![t.below(4) as i64, t.below(4) as i64];
+        if !rows.contains(&r) {
+            rows.push(r);
+        }
+    }
+    let mut edb = crate::common::prog::Edb::new();
+    edb.insert("e".into(), rows);
+    let arity = [("e".to_string(), 2usize), ("p".to_string(), 2), ("q".to_string(), 2)].into_iter().collect();
+    Some(Case { prog: Program { clauses }, edb, arity })
+}
+
 pub fn run(ctx: &Ctx) {
     ctx.set_rule(
         "G-prog x G-edb decoded from a 160-word choice tape (<=4 IDB relations, <=3 clauses each, <=3 body atoms, arity 1-3, \
@@ -227,12 +265,23 @@ pub fn run(ctx: &Ctx) {
     ctx.run_part_with("iql_engine", n, || case_strategy(GenOpts::default()), |c, o| check_engine(ctx, c, o, false), Some(&crate::common::gen::shrink_case));
     let n2 = ctx.cases(1500, 40_000);
     ctx.run_part_with("storage_and_handler", n2, || case_strategy(GenOpts::default()), |c, o| check_storage(ctx, c, o, false), Some(&crate::common::gen::shrink_case));
+    // the neighbourhood of the transitive-closure rule (the engine has a fast path for that shape)
+    use proptest::prelude::*;
+    let n3 = ctx.cases(20_000, 300_000);
+    ctx.run_part_with(
+        "binary_recursion_shapes",
+        n3,
+        || crate::common::gen::tape_strategy(40).prop_filter_map("shape", |t| tc_shape_case(&t)),
+        |c, o| check_engine(ctx, c, o, false),
+        Some(&crate::common::gen::shrink_case),
+    );
 }
 
 pub fn replay(ctx: &Ctx, part: &str, case: &J) -> Option<Result<CheckResult, String>> {
     Some(match part {
         "iql_engine" => ctx.replay_case(part, case, |c: &Case, o: &mut Obs| check_engine(ctx, c, o, true)),
         "storage_and_handler" => ctx.replay_case(part, case, |c: &Case, o: &mut Obs| check_storage(ctx, c, o, true)),
+        "binary_recursion_shapes" => ctx.replay_case(part, case, |c: &Case, o: &mut Obs| check_engine(ctx, c, o, true)),
         _ => return None,
     })
 }
